@@ -387,7 +387,7 @@ def bgzip_tabix_vcf(path_vcf_text) -> str:
     return dst
 
 
-def snv_vcf_text(contigs: dict, loci: list) -> str:
+def snv_vcf_text(contigs: dict, loci: list, flank: bool = False) -> str:
     lines = [
         "##fileformat=VCFv4.2",
         '##FILTER=<ID=PASS,Description="All filters passed">',
@@ -400,6 +400,16 @@ def snv_vcf_text(contigs: dict, loci: list) -> str:
     for l in loci:
         for p, als in zip(l.snv_positions, l.snv_alleles):
             recs.append((order[l.contig], p, l.contig, als))
+    # valid SNV records on the base just before and just after every target (where that base belongs to no target): they are not
+    # part of the locus - a window that is off by one (0- / 1-based, half-open / closed) would pull them in
+    inside = {(l.contig, q) for l in loci for q in range(l.start, l.stop)}
+    for l in (loci if flank else []):
+        for q in (l.start - 1, l.stop):
+            if 0 <= q < len(contigs[l.contig]) and (l.contig, q) not in inside:
+                base = contigs[l.contig][q].upper()
+                if base in "ACGT":
+                    inside.add((l.contig, q))
+                    recs.append((order[l.contig], q, l.contig, (base, "ACGT"[("ACGT".index(base) + 1 + (q % 3)) % 4])))
     recs.sort(key=lambda t: (t[0], t[1]))
     for _, p, c, als in recs:
         alt = ",".join(als[1:]) if len(als) > 1 else "."
@@ -407,12 +417,12 @@ def snv_vcf_text(contigs: dict, loci: list) -> str:
     return "\n".join(lines) + "\n"
 
 
-def write_snv_vcf(path, contigs, loci: list) -> str:
+def write_snv_vcf(path, contigs, loci: list, flank: bool = False) -> str:
     """`path` is the plain-text file (kept); returns the path of the bgzipped + tabixed `.vcf.gz`."""
     path = str(path)
     if path.endswith(".gz"):
         path = path[:-3]
-    write_text(path, snv_vcf_text(contigs, loci))
+    write_text(path, snv_vcf_text(contigs, loci, flank))
     return bgzip_tabix_vcf(path)
 
 
@@ -703,7 +713,7 @@ class _ReadMaker:
 
 def make_dataset(rng, outdir, n_samples=3, n_loci=3, ploidies=(2, 4), max_snvs=5, multiallelic=True,
                  depth=(5, 30), read_len=(30, 80), error_rate=0.01, features=frozenset(), n_contigs=1,
-                 contig_len=600, sample_names=None, softmask=0.0, iupac=0.0) -> Dataset:
+                 contig_len=600, sample_names=None, softmask=0.0, iupac=0.0, flank_snvs=False) -> Dataset:
     """Generate and write a complete input set for the MCHap programs (see the module docstring).
 
     * loci: `n_loci` non-overlapping windows (12..60 bp) spread over `n_contigs` contigs, 0..`max_snvs` SNVs each;
@@ -913,7 +923,7 @@ def make_dataset(rng, outdir, n_samples=3, n_loci=3, ploidies=(2, 4), max_snvs=5
     for p in bam_order:
         reads[p] = sort_reads(contigs, reads[p])
         write_bam(p, contigs, reads[p], read_groups[p])
-    snv_vcf = write_snv_vcf(os.path.join(outdir, "snvs.vcf"), contigs, loci)
+    snv_vcf = write_snv_vcf(os.path.join(outdir, "snvs.vcf"), contigs, loci, flank_snvs)
     bed = write_bed(os.path.join(outdir, "targets.bed"), loci)
     ploidy_file = write_text(
         # per-sample files are maps by name: written in reverse order of the samples, so that nothing can rely on
